@@ -29,6 +29,26 @@ def overLimit (rows : List Row) : Bool :=
   | some m => rows.any (fun r => r.any (fun c => decide (c.length > m)))
   | none => false
 
+/-- rows cut into blocks of `bs` (an exported CSV seen as a block list for the shared verdict) -/
+def cutRows (bs : Nat) : Nat → List Row → List (List Row)
+  | 0, _ => []
+  | f+1, l => if l.isEmpty then [] else (l.take bs) :: cutRows bs f (l.drop bs)
+
+/-- the logical table in force at one step of a commit history (op "export-history", "cli-ids") -/
+structure HistT where
+  columns : Row
+  pk : List Nat
+  rows : List Row
+
+def histTablesOf (input : Json) : Except String (List HistT) := do
+  (← arrFld input "tables").mapM fun t => do
+    return { columns := ← asRow (← fld t "columns"), pk := ← asNatList (← fld t "pk"), rows := ← asRows (← fld t "rows") }
+
+/-- what the repository must hold for a logical table: the model's ingest (any run size gives the
+    same table, `C01_config_independent`) -/
+def histCanon (t : HistT) : Res StoredTable :=
+  ingestTable (refSort t.pk) Facts.blockSize Facts.addRowMaxCell (2 ^ 40) t.columns t.pk t.rows
+
 def handleC01 (op : String) (input impl : Json) : Except String Json := do
   match op with
   | "ingest-big" =>
@@ -87,17 +107,38 @@ def handleC01 (op : String) (input impl : Json) : Except String Json := do
     let eCols ← asRow (fldD v "columns" (Json.arr #[]))
     let eRows ← asRows (fldD v "rows" (Json.arr #[]))
     -- the exported rows as one block list for the shared verdict
-    let asBlocks := fun (rows : List Row) =>
-      let rec cut (fuel : Nat) (l : List Row) : List (List Row) :=
-        match fuel with
-        | 0 => []
-        | f+1 => if l.isEmpty then [] else (l.take bs) :: cut f (l.drop bs)
-      cut (rows.length + 1) rows
+    let asBlocks := fun (rows : List Row) => cutRows bs (rows.length + 1) rows
     let viol := (sortVerdict bs i.pk [] i.rows (asBlocks eRows)) ++
       (if eCols == i.columns then [] else ["columns-preserved"])
     let agree := match m with
       | .ok ms => dup || ms.blocks.flatten == eRows
       | _ => false
+    return reply mj agree viol
+  | "export-history" =>
+    -- a history of `wrgl commit main MSG` from the branch's configured file and key: after every
+    -- step `wrgl export` holds the model's stored rows of the table in force at that step
+    if resClass impl == "err" && (fldD impl "kind" Json.null).getStr?.toOption == some "not-a-history" then
+      return reply (Json.mkObj [("res", "err")]) true []
+    let ts ← histTablesOf input
+    let ms := ts.map histCanon
+    let mj := Json.arr (ms.map (jRes jStored)).toArray
+    if resClass impl == "panic" then return reply mj false ["no-panic"]
+    if resClass impl != "ok" then return reply mj false ["unexpected-error"]
+    let obs ← arrFld (fldD impl "val" Json.null) "steps"
+    if obs.length != ts.length then return reply mj false ["unexpected-error"]
+    let bs := Facts.blockSize
+    let mut viol : List String := []
+    let mut agree := true
+    for (t, m, o) in ts.zip (ms.zip obs) do
+      let eCols ← asRow (fldD o "columns" (Json.arr #[]))
+      let eRows ← asRows (fldD o "rows" (Json.arr #[]))
+      let v := (sortVerdict bs t.pk [] t.rows (cutRows bs (eRows.length + 1) eRows)) ++
+        (if eCols == t.columns then [] else ["columns-preserved"])
+      viol := viol ++ v.filter (fun c => !viol.contains c)
+      let dup := hasDupKeysRows t.pk t.rows
+      agree := agree && (match m with
+        | .ok st => dup || st.blocks.flatten == eRows
+        | _ => false)
     return reply mj agree viol
   | _ => throw s!"unknown op {op}"
 where
@@ -182,6 +223,45 @@ def handleC02 (op : String) (input impl : Json) : Except String Json := do
       | .ok b => b == raw
       | _ => false
     return reply (jRes jBytes mb) agree viol
+  | "cli-ids" =>
+    -- the identifier as the commit command sees it, over a history of `wrgl commit main MSG` from the
+    -- branch's configured file and key. Per step the harness reports what the command said, the head
+    -- commit, its table id and key, and the id of the same logical table ingested directly elsewhere.
+    if resClass impl == "err" && (fldD impl "kind" Json.null).getStr?.toOption == some "not-a-history" then
+      return reply Json.null true []
+    let ts ← histTablesOf input
+    -- two steps hold the same logical table iff the model's stored tables are equal
+    let canon := ts.map (fun t => (jRes jStored (histCanon t)).compress)
+    let sameAsPrev := (canon.zip (canon.drop 1)).map (fun (a, b) => a == b)
+    let mj := Json.arr ((ts.zip (false :: sameAsPrev)).map (fun (t, same) =>
+      Json.mkObj [("out", if same then "nochange" else "committed"), ("pk", jNats t.pk)])).toArray
+    if resClass impl == "panic" then return reply mj false ["no-panic"]
+    if resClass impl != "ok" then return reply mj false ["unexpected-error"]
+    let obs ← arrFld (fldD impl "val" Json.null) "steps"
+    if obs.length != ts.length then return reply mj false ["unexpected-error"]
+    let outs ← obs.mapM (fun o => strFld o "out")
+    let heads ← obs.mapM (fun o => strFld o "head")
+    let tbls ← obs.mapM (fun o => strFld o "table")
+    let refs ← obs.mapM (fun o => strFld o "ref")
+    let pks ← obs.mapM (fun o => do asNatList (← fld o "pk"))
+    let idx := List.range ts.length
+    let pairs := idx.flatMap (fun i => (idx.filter (· > i)).map (fun j => (i, j)))
+    let nth := fun (l : List String) (i : Nat) => l[i]?.getD ""
+    let sameOk := (tbls.zip refs).all (fun (a, b) => a == b) &&
+      pairs.all (fun (i, j) => nth canon i != nth canon j || (nth tbls i == nth tbls j && nth refs i == nth refs j))
+    let diffOk := pairs.all (fun (i, j) => nth canon i == nth canon j || (nth tbls i != nth tbls j && nth refs i != nth refs j))
+    -- "no change" is said, and no commit made, exactly when the table is the one the branch already holds
+    let headSame := (heads.zip (heads.drop 1)).map (fun (a, b) => a == b)
+    let noChangeOk := outs.head? == some "committed" &&
+      (sameAsPrev.zip ((outs.drop 1).zip headSame)).all (fun (same, o, hs) =>
+        (o == (if same then "nochange" else "committed")) && hs == same)
+    let viol :=
+      (if sameOk then [] else ["same-content-same-id"]) ++
+      (if diffOk then [] else ["different-content-different-id"]) ++
+      (if noChangeOk then [] else ["no-change-detected"])
+    let agree := (outs.zip (false :: sameAsPrev)).all (fun (o, same) => o == (if same then "nochange" else "committed")) &&
+      (pks.zip ts).all (fun (p, t) => p == t.pk)
+    return reply mj agree viol
   | _ => throw s!"unknown op {op}"
 
 end Wrgl.Drv
